@@ -36,6 +36,9 @@ pub struct Prepared {
     /// run this work as on a one-CPU host (the execution thread is pinned to one CPU, so
     /// `available_parallelism()` answers 1) - for code that sizes its thread pools from it
     pub one_cpu: bool,
+    /// judged after the execution ended, however it ended (completed, panic, deadlock): returns
+    /// complaints about what the execution left behind (e.g. on the simulated disk)
+    pub post: Option<Arc<dyn Fn(&Outcome, &BodyReport) -> (Vec<String>, BTreeMap<String, u64>) + Send + Sync>>,
 }
 
 pub trait TCheck: Sync {
@@ -51,6 +54,10 @@ pub trait TCheck: Sync {
     fn real_vs_stub(&self) -> Value;
     fn assumptions(&self) -> Vec<String> {
         vec![]
+    }
+    /// (auxiliary passes) what this pass decides, for the summary embedded in the main evidence
+    fn pass_decides(&self) -> String {
+        "non-termination as a fact about a schedule: every task blocked (deadlock) or the 2M step bound (spinning)".into()
     }
     /// probes that must be non-zero in a thorough run (else harness error)
     fn required_probes(&self, _tier: Tier) -> Vec<&'static str> {
@@ -104,12 +111,18 @@ pub struct OneRun {
     pub choice_points: u64,
     pub switches: u64,
     pub history_complaints: Vec<String>,
+    pub post_complaints: Vec<String>,
     pub hard_fault: bool,
 }
 
 impl OneRun {
     /// violation class of this run (None = property held)
     pub fn class(&self) -> Option<String> {
+        if let Some(c) = self.post_complaints.first() {
+            if !matches!(self.outcome, Outcome::Diverged(_)) {
+                return Some(format!("post:{}", exec::norm(c)));
+            }
+        }
         match &self.outcome {
             Outcome::Completed => {
                 if let Some(c) = self.report.complaints.first() {
@@ -169,6 +182,17 @@ pub fn run_once(check: &dyn TCheck, hooks: &THooks, prep: &Prepared, plan: Plan)
     } else {
         vec![]
     };
+    let mut report = report;
+    let post_complaints = match (&prep.post, &rep.outcome) {
+        (_, Outcome::Diverged(_)) | (None, _) => vec![],
+        (Some(p), o) => {
+            let (bad, notes) = p(o, &report);
+            for (k, v) in notes {
+                *report.notes.entry(k).or_insert(0) += v;
+            }
+            bad
+        }
+    };
     OneRun {
         outcome: rep.outcome,
         report,
@@ -179,6 +203,7 @@ pub fn run_once(check: &dyn TCheck, hooks: &THooks, prep: &Prepared, plan: Plan)
         choice_points: rep.sched.choice_points,
         switches: rep.sched.switches,
         history_complaints,
+        post_complaints,
         hard_fault: prep.hard_fault,
     }
 }
@@ -256,6 +281,7 @@ pub fn worker_main(check: &dyn TCheck, args: &Args, w: usize, n: usize) -> ! {
                         .complaints
                         .iter()
                         .chain(confirm.history_complaints.iter())
+                        .chain(confirm.post_complaints.iter())
                         .take(4)
                         .cloned()
                         .collect();
@@ -461,9 +487,10 @@ pub fn parent_main(check: &dyn TCheck, args: &Args) -> ! {
             json!({"executions": ev.evaluations, "works": works.len(), "scheduler_steps": steps,
                    "faults_fired": ev.faults_fired, "probes": ev.probes, "outcome_classes": classes,
                    "violations": violations.len(), "seed": args.seed, "tier": args.tier.name(), "rule": check.rule(),
-                   "decides": "non-termination as a fact about a schedule: every task blocked (deadlock) or the 2M step bound (spinning)"})
+                   "decides": check.pass_decides()})
             .to_string(),
         );
+        println!("DIGEST {id}-T {run_digest}");
         println!("{id} T-flavour pass: {} executions, {} violations", ev.evaluations, violations.len());
         std::process::exit(if violations.is_empty() { 0 } else { 1 })
     }
@@ -550,7 +577,7 @@ pub fn replay_main(check: &dyn TCheck, _args: &Args, file: &str) -> ! {
             println!("VIOLATION property={} replay={file}", check.id());
             println!("  class: {c}");
             println!("  recorded class: {}", v["class"]);
-            for d in run.report.complaints.iter().chain(run.history_complaints.iter()).take(6) {
+            for d in run.report.complaints.iter().chain(run.history_complaints.iter()).chain(run.post_complaints.iter()).take(6) {
                 println!("  {d}");
             }
             std::process::exit(1)
